@@ -4,7 +4,8 @@
 (* Datagram classes: reg (registration request), dmr / rdac (start-up requests), ping,    *)
 (* ack / unk (command with unknown type), garbage; ovf = octet 4 is 0xFF, which makes the *)
 (* handler's `data[4] += 1` raise (before any effect for reg, after the registered-gate   *)
-(* for dmr/rdac).                                                                         *)
+(* for dmr/rdac); for a ping ovf = the datagram ends before octet 14, which makes the      *)
+(* answer's `data[14] = 1` raise (after the registered-gate as well).                      *)
 EXTENDS Storage
 
 CONSTANTS P2PPort, RdacPort
@@ -37,6 +38,7 @@ Recv(recs, src, d) ==
                   sent |-> <<Sent("accept_" \o d.cls, dst, 0), Sent("redirect", dst, port)>>, out |-> "ok"]
     [] d.cls = "ping" ->
          IF ~IsRegistered(recs, src) THEN [recs |-> recs, sent |-> <<Sent("reject", src, 0)>>, out |-> "ok"]
+         ELSE IF d.ovf THEN [recs |-> recs, sent |-> <<>>, out |-> "raise"]    \* 9..14 octets: data[14] = 1 raises
          ELSE [recs |-> recs, sent |-> <<Sent("ping_answer", src, 0)>>, out |-> "ok"]
     [] OTHER -> [recs |-> recs, sent |-> <<>>, out |-> "ok"]          \* ack, unk, garbage
 
